@@ -14,12 +14,16 @@ let fingerprint () =
   let tri f = String.concat "" (List.map (fun a -> bit (f (zi a) (zi 5))) [4; 5; 6]) in
   let sw = String.concat "" (List.concat_map (fun cp -> List.concat_map (fun cw -> List.concat_map (fun np ->
              List.map (fun nw -> bit (srv_swap (zi cp) (zi cw) (zi np) (zi nw))) [1; 2]) [1; 2]) [1; 2]) [1; 2]) in
-  Printf.sprintf "consts %s ovf=%s ovfcmp=%s ptr=%s swap=%s"
+  let one f = String.concat "" (List.map (fun a -> bit (f (zi a))) [-1; 0; 1]) in
+  let full = String.concat "" (List.concat_map (fun a -> List.map (fun m -> bit (name_full (zi a) (zi m))) [0; 4; 5; 6]) [4; 5; 6]) in
+  let room = ints (List.map (fun a -> room_left (zi 5) (zi a)) [4; 5; 6]) in
+  Printf.sprintf "consts %s ovf=%s ovfcmp=%s ptr=%s swap=%s idx=%s lend=%s,%d full=%s room=%s copy=%s term=%s fix=%s"
     (ints [mESSAGE_HEADER_LEN; mESSAGE_RESPONSE; mESSAGE_T_SRV; mESSAGE_C_IN; mAX_DOMAIN_LEN; xMPP_DOMAIN_NOT_FOUND;
            xMPP_DOMAIN_FOUND; hdr_octet2_off; hdr_octet3_off; hdr_qdcount_off; hdr_ancount_off; qr_shift; qr_mask;
            rcode_mask; q_tail; rr_type_off; rr_class_off; rr_rdlength_off; rr_fixed_len; srv_prio_off; srv_weight_off;
            srv_port_off; srv_target_off; label_mask; label_tag; pointer_tag; pointer_mask; pointer_shift])
     (ints ovf_check_offsets) (tri ovf_check) (tri pointer_guard) sw
+    (tri idx_guard) (tri label_end_guard) (int_of_z label_end_adjust) full room (one copy_guard) (one term_guard) (one fixup_guard)
 let () = iter_lines (fun line ->
   if line = "" then "" else
   if line = "?" then fingerprint () else
